@@ -183,13 +183,19 @@ CHECKS = {
                 "RateLimiter::check_limit; the interval is measured on one monotonic clock from before the first to after the last call; "
                 "monitors: admitted_tenant <= capacity + rate*dt + 1, admitted_total <= G + G*dt + 1, no refusal when every tenant sent <= "
                 "capacity and the total <= G, tokens <= capacity, and tokens >= capacity - admitted (a global refusal must not consume the "
-                "tenant's budget). distinct_nontrivial = distinct rows",
-        "legs": [{"name": "admission-bounds", "argv": ["c19"], "shards": 4, "parallel": 4}],
+                "tenant's budget). Leg server-admission: the REAL kyrodb_server with tenant max_qps in {2,3,5,8} and global limit in {6,10,off}: "
+                "each of 12 data-RPC shapes (Insert, Query, BulkQuery, Search, UpdateMetadata, Delete, BatchDelete, one-item and 30-item "
+                "BulkInsert/BulkSearch streams, BulkLoadHnsw) is fired 30 times from 1, 2 or 4 connections of ONE tenant (own bucket per shape); "
+                "admitted (= not RESOURCE_EXHAUSTED; stream items counted individually) must stay <= max_qps + max_qps*dt + 1 and the total "
+                "<= G + G*dt + 1 with dt on the caller's clock; after an idle second 3 tenants send 10 requests each from full buckets and none "
+                "may be refused. distinct_nontrivial = distinct rows / server cases",
+        "legs": [{"name": "admission-bounds", "argv": ["c19"], "shards": 4, "parallel": 4},
+                 {"name": "server-admission", "argv": ["c19", "--leg", "server"], "bin_args": {"server": "server"}, "shards": 4, "parallel": 4}],
         "assumptions": COMMON_ASSUME + ["all bounds are timing-safe: slower execution only loosens them", "one consistent max_qps per tenant (the API's contract)"],
         "min_evaluations": 50,
         "level_text": "runtime monitoring of admission counts under real concurrent callers over a seeded grid, with timing-safe bounds; "
                       "exploration of schedules by repetition, not proof",
-        "level_note": "free-running OS scheduling; the server-level row is part of the server driver",
+        "level_note": "free-running OS scheduling; the refund clause is only observable in-process (available_tokens), not through the server",
         "technique": "runtime monitoring: conservation/bound monitors on admission counters under concurrent load",
     },
     "C01": {
